@@ -345,7 +345,7 @@ var c06aPositions = map[string]c06aPosInfo{
 	"wherein": {site: "addvar"}, "orin": {site: "addvar"}, "notin": {site: "addvar"}, "havingin": {site: "addvar"},
 	"selectsub": {site: "addvar"}, "tablesub": {site: "addvar"}, "ordersub": {site: "addvar"}, "exprvars": {site: "addvar"},
 	"gormexpr": {site: "addvar"}, "clauseswhere": {site: "addvar"}, "scopein": {site: "addvar"}, "named": {site: "addvar"},
-	"slicein": {site: "addvar"}, "mapeq": {site: "addvar"}, "eqcol": {site: "addvar"}, "joinraw": {site: "addvar"},
+	"slicein": {site: "addvar"}, "mapeq": {site: "addvar"}, "eqcol": {site: "addvar"}, "joinraw": {site: "joins"},
 	"whereg": {site: "group"}, "org": {site: "group"}, "notg": {site: "group"}, "havingg": {site: "group"}, "scopeg": {site: "group"},
 	"update": {site: "addvar", finisher: true, writes: true}, "updates": {site: "addvar", finisher: true, writes: true},
 	"updatecol": {site: "addvar", finisher: true, writes: true},
@@ -726,6 +726,7 @@ type c06aUseFact struct {
 	Changed []string `json:"changed"` // fields of the ARGUMENT handle's statement that differ after this use
 	Others  []string `json:"others"`  // "h<i>.<field>" of the other handles
 	Note    string   `json:"note"`
+	Nsc     int      `json:"nsc"` // pending scopes of the argument right before the use (from the real statement)
 }
 
 type c06aRun struct {
@@ -793,6 +794,7 @@ func c06aExec(w *c06aWorld, h c06aHist, withUses bool) (run c06aRun) {
 			}
 			after := snapAll()
 			f := c06aUseFact{Use: ui, Note: note, Changed: c06aSnapDiff(cur[u.Arg], after[u.Arg])}
+			fmt.Sscanf(cur[u.Arg]["scopes"], "[%d:", &f.Nsc)
 			for i := range hs {
 				if i != u.Arg {
 					for _, d := range c06aSnapDiff(cur[i], after[i]) {
@@ -1019,7 +1021,8 @@ func c06aTie(r *Result, cases []c06aTieCase) {
 	}
 	ops := make([][]interface{}, len(cases))
 	for i, c := range cases {
-		kinds, nsc, _ := c06aModelState(c.h, c.use.Arg)
+		kinds, _, _ := c06aModelState(c.h, c.use.Arg)
+		nsc := c.fact.Nsc
 		qc := 0
 		if c.use.Pos == "joins" || c.use.Pos == "innerjoins" {
 			qc = 7 // the joined model (C06AAcct) has a soft-delete query clause
@@ -1197,8 +1200,8 @@ func c06aSuite(r *Result, rng *rand.Rand, rounds int) {
 			if f.Note != "ok" && f.Note != "assoc" {
 				continue // the consumer failed / panicked somewhere: the site may not have been reached
 			}
-			if c06aPositions[u.Pos].site == "group" && c06aPositions[u.Pos].finisher && (u.Pos == "preload" || u.Pos == "preloadacct" || u.Pos == "assocfind") {
-				// reached only when the parent query returns rows
+			if u.Pos == "joinraw" && u.Mode != 2 {
+				continue // a raw join holding a handle reaches BOTH sites once it is built: joins() and, for the Conds, AddVar
 			}
 			ties = append(ties, c06aTieCase{h, u, f})
 		}
